@@ -158,6 +158,28 @@ CALLEE_RANGES = {}    # resolved callee -> result range (per run; filled on dema
 YIELD_RANGE = {}      # iterator type path -> (lo, hi) of every value its next() yields; filled by the rule that proves it (C04 links C13)
 
 
+_ENUM_RANGES = {}
+
+
+def enum_discr_range(cx, ty):
+    """(min, max) of the discriminants of a fieldless enum of the workspace (from the item facts), else None."""
+    facts = getattr(cx, "facts", None)
+    if facts is None or "::" not in ty or "<" in ty:
+        return None
+    key = (id(facts), ty)
+    if key not in _ENUM_RANGES:
+        _ENUM_RANGES[key] = None
+        try:
+            for it in facts.items(ty.split("::")[0]):
+                if it.get("dk") == "Enum" and it.get("path") == ty:
+                    ds = [v.get("discr") for v in it.get("variants", [])]
+                    if ds and all(isinstance(d, int) for d in ds) and not any(v.get("fields") for v in it["variants"]):
+                        _ENUM_RANGES[key] = (min(ds), max(ds))
+        except Exception:
+            pass
+    return _ENUM_RANGES[key]
+
+
 class Ctx:
     """Per-function context: let bindings (immutable locals), assignment counts, constants."""
 
@@ -468,6 +490,8 @@ def _interval(e, cx, refine, depth=0, at=None):
             inner = (0, 15)   # fieldless 16-variant enums (checked in C02 encoding)
         if inner is None and src_ty == "bool":
             inner = (0, 1)
+        if inner is None:
+            inner = enum_discr_range(cx, src_ty.lstrip("&"))
         return clip(inner, tr)
     if k == "bin" and "callee" not in e:
         a, b = interval(e["l"], cx, refine, depth + 1, at), interval(e["r"], cx, refine, depth + 1, at)
